@@ -11,7 +11,7 @@ var hostileNums = []float64{
 	127, 128, -128, -129, 255, 256, 32767, 32768, -32768, -32769, 65535, 65536, 65543,
 	2147483647, 2147483648, 2147483648.5, -2147483648, -2147483648.5, -2147483649, 4294967295, 4294967296, 4294967301,
 	9007199254740992, 9007199254740994, 9223372036854774784, 9223372036854775808, -9223372036854775808, -9223372036854777856,
-	18446744073709551615, 18446744073709551616, 1e30, -1e30, math.NaN(), math.Inf(1), math.Inf(-1),
+	18446744073709551615, 18446744073709551616, 1e19, 1.2e19, 18446744073709549568, 1e30, -1e30, math.NaN(), math.Inf(1), math.Inf(-1),
 	// float32 rounding: ties, overflow boundary, subnormals
 	16777216, 16777217, 16777219, 16777218.5, 3.4028234663852886e38, 3.4028235677973366e38, 3.40282356779733e38, 3.5e38, -3.5e38,
 	1e-46, 7.006492321624085e-46, 7.1e-46, 1.401298464324817e-45, 2.1019476964872256e-45, 1.1754943508222875e-38, 1.1754942e-38, 1e39, 0.30000000000000004,
